@@ -266,6 +266,9 @@ def parse_formatted_hex(formatted, num_chunks, chunk_size, separator):
     value = b""
     for _ in range(num_chunks):
         chunk = formatted[0:chunk_size]
+        if not all(c in "0123456789abcdefABCDEF" for c in chunk):
+            # int() would also accept signs, white space, "_" and "0x"
+            raise ValueError("invalid formatted hex string")
         value += int(chunk, 16).to_bytes(chunk_size // 2, "big")
         formatted = formatted[chunk_size:]
         if len(formatted) > 0 and formatted[0] != separator:
